@@ -8,6 +8,7 @@ import KrillModel.Ca.LemmasNoOver
 import KrillModel.Ca.LemmasKeySync
 import KrillModel.Ca.LemmasShrink
 import KrillModel.Ca.LemmasTidyReach
+import KrillModel.Ca.Exchange
 namespace KM.Props.C02
 open KM KM.CaK KM.Res KM.AMap
 
@@ -378,10 +379,14 @@ Proved (`sync_converges_partial`): the statement for one class's key-state machi
 (`Ca/KeySync.lean`) against a parent that answers every request with a certificate for the
 offered resources – from **every** well-formed key state, including every stage of a key roll
 and the `RollOld` arm of `append_entitlement_events`.  `sync_idempotent` above is the
-unrestricted `Sys`-level statement of the last sentence.  Missing for the full statement: the
-projection of the two-aggregate exchange (the parent's `entitlement_class` with the not-after
-"white lie", `issue_cert`, the child's manager steps) onto this machine is checked on traces by
-the `syskeys` driver and not proved.
+unrestricted `Sys`-level statement of the last sentence.  The exchange between two real
+aggregates is `Ca/Exchange.lean`; on it `exchange_idempotent` (below) is proved for every pair,
+and convergence is proved for concrete pairs covering each kind of entitlement change
+(`exchange_converges_instances`).  Missing for the full statement: convergence of `Pair.sync`
+for an ARBITRARY reachable pair – i.e. the proof that every class of the child follows the
+key-state machine above under `Pair.sync` (the parent's `entitlement_class` with the not-after
+"white lie", `issue_cert`, the child's manager steps) – is checked on traces by the `syskeys`
+driver and not proved; hierarchies of more than two levels are composed by the lock-step run only.
 -/
 
 /-- From every well-formed key state: two rounds of (sync, activate, sync) and two more syncs
@@ -437,5 +442,68 @@ example :
       .updateEntitlements 9 [⟨0, [1, 2], 100, []⟩] 0 [4],
       .updateRcvdCert 0 4 { res := [1, 2], na := 100 } 50 []]).ca.convergedB 9 [⟨0, [1, 2], 100, [4]⟩] 0 = true := by
   decide
+
+/-! ## The exchange between two aggregates
+
+`Ca/Exchange.lean`: `Pair.sync` is one `ca_sync_parent` of the child against the parent's `list`,
+`issue` and `revoke`, built from the real commands of both aggregates (each with its published
+object sets), for any number of classes, class-name mappings and key states. -/
+
+/-- `sync_idempotent` on the pair, unbounded: once the child has converged on the parent's list
+(`convergedB`: nothing to send, every class listed, no key wants an update) a further sync
+changes **neither** aggregate – no command is stored on either side.  For every pair of states. -/
+theorem exchange_idempotent (x : Pair) (now na : Int) (fresh : List KeyId)
+    (hrepo : x.child.ca.hasRepo = true)
+    (hc : x.child.ca.convergedB x.ph (x.parent.ca.entitlementsFor x.ch na) now = true) :
+    x.sync now na fresh = x := by
+  obtain ⟨hpend, _, hnext⟩ := sync_idempotent x.child x.ph (x.parent.ca.entitlementsFor x.ch na) now fresh hrepo hc
+  unfold Pair.sync
+  simp only [hpend, Bool.false_eq_true, if_false, hnext]
+
+/-- `sync_converges` on the pair, for every kind of entitlement change of the property text, on
+concrete pairs (bounded instances, evaluated by the kernel): first delegation, shrink to a
+partial overlap, shrink to nothing (the parent itself loses the resources: the class is dropped
+in one sync), regain, two classes at once, a class-name mapping, and a key roll of the child
+(request, activation, revocation).  In each case the stated number of syncs ends `converged`
+(one `Active` class per entitlement with exactly the entitled resources, no open request, the
+parent's issued certificate equal to it) and the next sync changes nothing on either side. -/
+theorem exchange_converges_instances :
+    -- first delegation: two syncs (entitlements → request; request → certificate)
+    (xStart.converged 900 = false ∧ xConv.converged 900 = true ∧ xConv.sync 10 900 [] = xConv) ∧
+    -- shrink to a partial overlap: two syncs
+    (xShrunk.converged 900 = false ∧ (xShrunk.syncs 10 900 [[], []]).converged 900 = true ∧
+      (xShrunk.syncs 10 900 [[], [], []]) = xShrunk.syncs 10 900 [[], []]) ∧
+    -- shrink to nothing: one sync removes the class
+    (xNothing.converged 900 = false ∧ (xNothing.syncs 10 900 [[]]).converged 900 = true ∧
+      (xNothing.syncs 10 900 [[]]).child.ca.classes = [] ∧
+      (xNothing.syncs 10 900 [[], []]) = xNothing.syncs 10 900 [[]]) ∧
+    -- regain: two syncs, a new class with a new key
+    (xRegain.converged 900 = false ∧ (xRegain.syncs 10 900 [[21], []]).converged 900 = true ∧
+      (xRegain.syncs 10 900 [[21], [], []]) = xRegain.syncs 10 900 [[21], []]) ∧
+    -- two classes at once: two syncs
+    (xTwo.converged 900 = false ∧ (xTwo.syncs 10 900 [[20, 21], []]).converged 900 = true ∧
+      (xTwo.syncs 10 900 [[20, 21], []]).child.ca.classes.length = 2 ∧
+      (xTwo.syncs 10 900 [[20, 21], [], []]) = xTwo.syncs 10 900 [[20, 21], []]) ∧
+    -- class-name mapping at the parent: two syncs, the child's class is under the mapped name
+    ((xMapped.syncs 10 900 [[20], []]).converged 900 = true ∧
+      (xMapped.syncs 10 900 [[20], []]).child.ca.classes.map (·.2.parentRcn) = [5]) ∧
+    -- key roll of the child: sync (certificate for the new key), activate, sync (revocation)
+    (let r2 : Pair := { xRoll.sync 10 900 [] with child := (xRoll.sync 10 900 []).child.next (.keyrollActivate 900) }
+     let r3 := r2.sync 10 900 []
+     r3.converged 900 = true ∧ r3.sync 10 900 [] = r3 ∧
+     r3.parent.ca.classes.map (fun q => keys q.2.certs.issued) = [[30]]) := by
+  decide
+
+/-- Non-vacuity of `exchange_idempotent`: the converged pair satisfies its hypotheses. -/
+example :
+    xConv.child.ca.hasRepo = true ∧
+    xConv.child.ca.convergedB xConv.ph (xConv.parent.ca.entitlementsFor xConv.ch 900) 10 = true := by decide
+
+/-- Non-vacuity of "shrink to nothing": the parent's own shrink removed the child's certificate in
+the same command (`shrink_active_child`: nothing left), before the child synchronised. -/
+example :
+    (get xConv.parent.ca.classes 0).map (fun rc => keys rc.certs.issued) = some [20] ∧
+    (get xNothing.parent.ca.classes 0).map (fun rc => keys rc.certs.issued) = some [] ∧
+    xNothing.parent.ca.entitlementsFor 7 900 = [] := by decide
 
 end KM.Props.C02
